@@ -103,6 +103,7 @@ type correctableCallState struct {
 func (c RawConfiguration) CorrectableCall(ctx context.Context, d CorrectableCallData) *Correctable {
 	expectedReplies := len(c)
 	md := &ordering.Metadata{MessageID: c.getMsgID(), Method: d.Method}
+	vEmit("CallStart", 0, md.MessageID, "kind", "corr", "size", len(c), "stream", d.ServerStream, "ctx", ctx)
 
 	replyChan := make(chan response, expectedReplies)
 	for _, n := range c {
@@ -111,11 +112,15 @@ func (c RawConfiguration) CorrectableCall(ctx context.Context, d CorrectableCall
 			msg = d.PerNodeArgFn(d.Message, n.id)
 			if !msg.ProtoReflect().IsValid() {
 				expectedReplies--
+				vEmit("CallSkip", n.id, md.MessageID)
 				continue // don't send if no msg
 			}
 		}
+		vGate("CallEnqWait", n.id, md.MessageID)
 		n.channel.enqueue(request{ctx: ctx, msg: &Message{Metadata: md, Message: msg}}, replyChan, d.ServerStream)
+		vEmit("CallEnq", n.id, md.MessageID)
 	}
+	vEmit("CallIssued", 0, md.MessageID, "expected", expectedReplies)
 
 	corr := &Correctable{donech: make(chan struct{}, 1)}
 
@@ -150,26 +155,32 @@ func (c RawConfiguration) handleCorrectableCall(ctx context.Context, corr *Corre
 		case r := <-state.replyChan:
 			if r.err != nil {
 				errs = append(errs, nodeError{nodeID: r.nid, cause: r.err})
+				vEmit("CallRecv", r.nid, state.md.MessageID, "err", true, "nerr", len(errs), "nrep", len(replies))
 				break
 			}
 			replies[r.nid] = r.msg
+			vEmit("CallRecv", r.nid, state.md.MessageID, "err", false, "nerr", len(errs), "nrep", len(replies))
 			if resp, rlevel, quorum = state.data.QuorumFunction(state.data.Message, replies); quorum {
 				if quorum {
 					corr.set(r.msg, rlevel, nil, true)
+					vEmit("CallEnd", 0, state.md.MessageID, "out", "ok", "nerr", len(errs), "nrep", len(replies), "level", rlevel)
 					return
 				}
 				if rlevel > clevel {
 					clevel = rlevel
 					corr.set(r.msg, rlevel, nil, false)
+					vEmit("CorrPublish", 0, state.md.MessageID, "level", rlevel)
 				}
 			}
 		case <-ctx.Done():
 			corr.set(resp, clevel, QuorumCallError{cause: ctx.Err(), errors: errs, replies: len(replies)}, true)
+			vEmit("CallEnd", 0, state.md.MessageID, "out", "ctx", "nerr", len(errs), "nrep", len(replies), "level", clevel)
 			return
 		}
 		if (state.data.ServerStream && len(errs) == state.expectedReplies) ||
 			(!state.data.ServerStream && len(errs)+len(replies) == state.expectedReplies) {
 			corr.set(resp, clevel, QuorumCallError{cause: Incomplete, errors: errs, replies: len(replies)}, true)
+			vEmit("CallEnd", 0, state.md.MessageID, "out", "incomplete", "nerr", len(errs), "nrep", len(replies), "level", clevel)
 			return
 		}
 	}
